@@ -143,7 +143,8 @@ class Emitter:
             if o:
                 self.emit(ind, "_endfor(%s)" % self.ctx0)
         elif k == "for":
-            _, mx, blk, chk = st
+            _, mx, blk, chk = st[:4]
+            brk = st[4] if len(st) > 4 else None
             self.loopvar += 1
             iv = "i%d" % self.loopvar
             if o:
@@ -151,6 +152,17 @@ class Emitter:
             else:
                 self.emit(ind, "for %s in range(min(n, %d)):" % (iv, mx))
             self.block(blk, ind + 1, iv)
+            if brk is not None:
+                # break out of a for loop: on a secret condition, or on a PUBLIC one ("i==1": the loop index)
+                if brk.startswith("i=="):
+                    if o:
+                        self.emit(ind + 1, "_breakif(%s == %s%s)" % (iv, brk[3:], self.ctx))
+                    else:
+                        self.emit(ind + 1, "if %s == %s: break" % (iv, brk[3:]))
+                elif o:
+                    self.emit(ind + 1, "_breakif(%s%s)" % (cond_src(brk, True), self.ctx))
+                else:
+                    self.emit(ind + 1, "if %s: break" % cond_src(brk, False))
             if o:
                 self.emit(ind, "_endfor(%s)" % self.ctx0)
 
@@ -235,6 +247,13 @@ def programs(level):
             for c in ("i!=n", "x<y"):
                 for brk in (None, "y==3", "b", "x>=4"):
                     out.append([("while", c, mx, blk, brk)])
+    # --- for loops left by a break (secret conditions; public conditions on the loop index)
+    for mx in (3, 4):
+        for blk in blocks1(LA)[:4]:
+            for brk in ("b", "y==3", "x>=4", "i==0", "i==1", "i==2"):
+                out.append([("for", mx, blk, False, brk)])
+        out.append([("for", mx, [LA[0]], True, "i==1")])
+        out.append([("if", [("b", [("for", mx, [LA[1]], False, "i==1")])], [A[0]])])
     # --- two-argument _range(start, secret stop, max)
     for start, mx in ((1, 2), (1, 3), (2, 3), (2, 4)):
         for blk in blocks1(LA)[:6]:
